@@ -23,7 +23,11 @@ RULE = ("random programs (8-40 operations) over: caller objects (adapter lists, 
         "unicode and reserved characters, repeated keys and non-str values (int, bool, None), bytes / str / structured bodies incl. empty and falsy ones), HttpConn / "
         "BAuthConn / ClientAuthConn / TokenAuthConn over addresses (with and without trailing slash, list/tuple/dict "
         "argument forms, request ids off) and over earlier connections (adapters=None / one adapter / a list object), "
-        "MCallerHttp subclasses with prefix maps (empty prefix, shared prefix, no / two matching components), "
+        "MCallerHttp subclasses with prefix maps (empty prefix, shared prefix, no / two matching components) -- all caller "
+        "classes of a program are built from ONE or TWO shared mix-ins holding the wrapper methods (each decorated once), half "
+        "of the later ones as siblings re-using the component names with other prefixes / subclasses of an earlier caller's "
+        "class with their own or the inherited _HTTP_PREFIX_MAP / further instances of the same class; calls re-use the wrapper "
+        "method of earlier calls, the final sweep goes over the callers in either order -- "
         "clone(None / adapter / list), wrapper methods with components (get_conn + per-prefix cache), "
         "get/post/put/delete/patch and direct do_request with default / lower-case methods; EVERY request also draws the "
         "rarely used arguments -- raw_response omitted / False / True (positional and by keyword for do_request), absent "
@@ -37,7 +41,12 @@ RULE = ("random programs (8-40 operations) over: caller objects (adapter lists, 
         "object it is called on).  Compared per request: the Request handed to the opener, the order of the process_response "
         "calls AND the value returned to the caller (marks of the tag adapters around '' / the decoded json / the very response "
         "object the opener returned, with its .data).  Non-trivial = a request goes through a chain of depth >= 2 "
-        "after a later derivation from one of its connections or callers.")
+        "after a later derivation from one of its connections or callers.  55% of the programs run under a drawn AMBIENT "
+        "configuration of the process, put back afterwards (case field `env`): levels 1 / 5 / DEBUG / INFO / ERROR / CRITICAL on the "
+        "loggers ak.conn_http, ak.mcaller, ak, root with a NullHandler, a handler that formats every record, or none, "
+        "logging.disable, 1-3 environment variables (proxies, DEBUG-like switches, TZ, locale, HOME), warnings as errors, a "
+        "default socket timeout; the model does not know the configuration, so any dependence of a request or a returned "
+        "value on it is a disagreement.")
 TRUSTED_BASE = [
     "urllib.request.Request stores headers under key.capitalize() (later value wins), keeps url / data / method as "
     "given (urls with '#', blanks, '<' are outside the generated domain); urllib.parse.urlencode, str.encode('utf-8'), "
@@ -53,6 +62,13 @@ TRUSTED_BASE = [
     "does for real answers; redirects are not followed) and the harness's own RequestAdapter subclass TagAdapter (appends "
     "to header X-Tag; process_response records the order of the calls and returns Marked(tag, value), so that order and "
     "count of the processors are visible in the value the caller gets)",
+    "ambient configuration: the harness sets logger levels / handlers, logging.disable, os.environ entries (+ time.tzset), the "
+    "warnings filter and the default socket timeout before a program and restores them after it (_Ambient); the extractor "
+    "additionally pins (fail closed) that _log_request / _log_response write to no object, that conn_http.py reads no "
+    ".isEnabledFor / .getEffectiveLevel / .level / .disabled / environ / getenv (mcaller_http.py, mcaller.py: none of "
+    ".isEnabledFor / .getEffectiveLevel / environ / getenv), that MCallerMetaHttpMethod has exactly the "
+    "slots auth_types, components and that get_conn assigns no attribute, writes only conns_by_prefix (= "
+    "self._mc_conns_by_prefix) and reads _HTTP_PREFIX_MAP from self",
     "json.loads of a response body is an oracle value (r_json: canonical json.dumps(sort_keys) of json.loads(text), computed "
     "by the harness, None when json.loads raises), like json.dumps for request bodies; bytes.decode('utf-8') is MODELLED "
     "(Model.decode_utf8, strict) and compared per case; the shape of the response part of do_request -- signature, the one "
@@ -70,6 +86,9 @@ ASSUMPTIONS = [
     "object it is called on (adapter applied last) and through nothing else; whether a prefixed connection that a caller "
     "cached before add_adapter on the caller's own connection sees the added adapter is not determined by the property "
     "(the code keeps the cached one; model = code, no oracle verdict)",
+    "a caller's prefix map is the _HTTP_PREFIX_MAP attribute its class resolves to, as coded (a subclass's own map REPLACES "
+    "the inherited one, it is not merged); the interpreter runs without -O (the refusals of two authenticating layers / of "
+    "a missing or ambiguous component are assert statements)",
     "single-threaded use (request ids under concurrency are C16); the value of a GENERATED X-Request-ID is not compared (a caller-supplied one is)",
     "the response clause is about the adapters' process_response: the statement does not say what an error status or an "
     "undecodable body must do; the code raises (HTTPError; ValueError when decoding was asked for) -- model = code, the "
@@ -464,6 +483,51 @@ def gen_consts(repo):
     else:
         raise ExtractError("clone: list test not recognised")
 
+    # --- the logging helpers only READ the request / response (they run between the Request constructor and the
+    #     opener call: anything they wrote would be sent, and only under the logging levels that make them work)
+    MUTATORS = ("update", "pop", "popitem", "setdefault", "clear", "add_header", "add_unredirected_header",
+                "remove_header", "__setitem__", "__delitem__", "append", "extend", "insert", "remove")
+    impl_cls = _cls(body, "_HttpConnImpl")
+    for nm in ("_log_request", "_log_response"):
+        f = _fn(impl_cls.body, nm)
+        for n in ast.walk(f):
+            if isinstance(n, (ast.Subscript, ast.Attribute)) and isinstance(n.ctx, (ast.Store, ast.Del)):
+                raise ExtractError(f"{nm}: writes to an object (line {n.lineno}); the model has no effect of logging on the request")
+            if isinstance(n, (ast.AugAssign, ast.Global, ast.Nonlocal, ast.Return)) and not (isinstance(n, ast.Return) and n.value is None):
+                raise ExtractError(f"{nm}: unexpected statement at line {n.lineno}")
+            if isinstance(n, ast.Call) and isinstance(n.func, ast.Attribute) and n.func.attr in MUTATORS:
+                raise ExtractError(f"{nm}: calls .{n.func.attr}() (line {n.lineno}); the model has no effect of logging on the request")
+    for n in ast.walk(tree):      # nothing else in the module looks at the logging configuration or the environment
+        if isinstance(n, ast.Attribute) and n.attr in ("isEnabledFor", "getEffectiveLevel", "environ", "getenv", "level", "disabled"):
+            raise ExtractError(f"conn_http.py line {n.lineno}: reads .{n.attr} (behaviour depending on the ambient configuration is not modelled)")
+    for fn_, tr_ in (("mcaller_http.py", mtree), ("mcaller.py", ast.parse(open(os.path.join(repo, "ak", "mcaller.py")).read()))):
+        for n in ast.walk(tr_):
+            if isinstance(n, ast.Attribute) and n.attr in ("isEnabledFor", "getEffectiveLevel", "environ", "getenv"):
+                raise ExtractError(f"{fn_} line {n.lineno}: reads .{n.attr} (behaviour depending on the ambient configuration is not modelled)")
+    # --- the metadata of a wrapper method is shared by all classes inheriting it: read-only, two slots;
+    #     get_conn resolves the component against self._HTTP_PREFIX_MAP on every call and writes only its own cache
+    meta_cls = _cls(mtree.body, "MCallerMetaHttpMethod")
+    slots = [st.value for st in meta_cls.body if isinstance(st, ast.Assign) and len(st.targets) == 1 and _is_name(st.targets[0], "__slots__")]
+    try:
+        slot_names = sorted(ast.literal_eval(slots[0])) if len(slots) == 1 else None
+    except ValueError:
+        slot_names = None
+    if slot_names != ["auth_types", "components"]:
+        raise ExtractError("MCallerMetaHttpMethod.__slots__ is not ('auth_types', 'components') (per-method state shared by all caller classes is not modelled)")
+    gc = _fn(_cls(mtree.body, "MCallerHttp").body, "get_conn")
+    for n in ast.walk(gc):
+        if isinstance(n, ast.Attribute) and isinstance(n.ctx, (ast.Store, ast.Del)):
+            raise ExtractError(f"get_conn: assigns an attribute (line {n.lineno}); the model writes the caller's own prefix cache only")
+        if isinstance(n, ast.Subscript) and isinstance(n.ctx, (ast.Store, ast.Del)) and not _is_name(n.value, "conns_by_prefix"):
+            raise ExtractError(f"get_conn: writes to something else than conns_by_prefix (line {n.lineno})")
+        if isinstance(n, ast.Call) and (_is_name(n.func, "setattr") or (isinstance(n.func, ast.Attribute) and n.func.attr in MUTATORS)):
+            raise ExtractError(f"get_conn: in-place update at line {n.lineno}")
+        if isinstance(n, ast.Attribute) and n.attr == "_HTTP_PREFIX_MAP" and not _is_name(n.value, "self"):
+            raise ExtractError(f"get_conn: _HTTP_PREFIX_MAP not read from self (line {n.lineno})")
+    cbp = [n for n in ast.walk(gc) if isinstance(n, ast.Assign) and len(n.targets) == 1 and _is_name(n.targets[0], "conns_by_prefix")]
+    if len(cbp) != 1 or not _is_attr(cbp[0].value, "self", "_mc_conns_by_prefix"):
+        raise ExtractError("get_conn: conns_by_prefix is not self._mc_conns_by_prefix")
+
     def S(name, text):
         return f"Definition {name} : list Z := {SX.cstr(text)}.\n"
     text = ("(* generated from ak/conn_http.py, ak/mcaller_http.py by harness/props/c17.py -- do not edit *)\n"
@@ -522,6 +586,37 @@ def _adspec(rng, allow_auth=True):
     if r < 0.88:
         return ["client", rng.choice(WORDS), rng.choice(WORDS), rng.choice(WORDS)]
     return ["token", rng.choice(WORDS)]
+
+
+# ambient settings of the process a program runs under (none of them may change a request or a returned value):
+# levels / handlers of the loggers the code writes to (and of their ancestors), logging.disable, environment
+# variables, warnings turned into errors, a default socket timeout
+LOG_SETUPS = [
+    [["conn", 10, "null"]], [["conn", 10, "fmt"]], [["conn", 10, "none"]], [["conn", 5, "fmt"]], [["conn", 1, "null"]],
+    [["root", 10, "null"]], [["root", 10, "fmt"]], [["ak", 10, "fmt"]], [["ak", 10, "null"]],
+    [["conn", 20, "fmt"]], [["root", 20, "fmt"]], [["mcaller", 20, "fmt"]], [["mcaller", 10, "null"], ["conn", 10, "fmt"]],
+    [["root", 10, "null"], ["conn", 40, "none"]], [["conn", 40, "fmt"]], [["root", 50, "null"]],
+    [["conn", 10, "fmt"], ["disable", 50]], [["root", 10, "fmt"], ["disable", 10]],
+]
+ENV_VARS = [["http_proxy", "http://proxy.invalid:3128"], ["HTTPS_PROXY", "http://proxy.invalid:3128"], ["no_proxy", "*"],
+            ["DEBUG", "1"], ["AK_DEBUG", "1"], ["HTTP_DEBUG", "1"], ["PYTHONHTTPSVERIFY", "0"], ["TZ", "Asia/Kolkata"],
+            ["LANG", "C"], ["LC_ALL", "tr_TR.UTF-8"], ["NO_COLOR", "1"], ["USER", ""], ["HOME", "/nonexistent"]]
+
+
+def gen_env(rng):
+    r = rng.random()
+    if r < 0.45:
+        return None
+    env = {}
+    if r < 0.93:
+        env["log"] = copy.deepcopy(rng.choice(LOG_SETUPS if rng.random() < 0.6 else LOG_SETUPS[:9]))
+    if r >= 0.85 or rng.random() < 0.2:
+        env["environ"] = [list(x) for x in rng.sample(ENV_VARS, rng.choice([1, 2, 3]))]
+    if rng.random() < 0.1:
+        env["warnings"] = "error"
+    if rng.random() < 0.05:
+        env["socket_timeout"] = 0.25
+    return env
 
 
 def gen_program(rng, with_add=False, size=None):
@@ -605,11 +700,40 @@ def gen_program(rng, with_add=False, size=None):
         conns.append(1)
 
     def new_caller():
-        ks = rng.sample(COMPS, rng.choice([0, 1, 2, 2, 3]))
-        pm = [[k, rng.choice(PREFIXES)] for k in ks]
-        if len(pm) >= 2 and rng.random() < 0.3:
-            pm[1][1] = pm[0][1]          # two components behind the same prefix
-        ops.append({"o": "caller", "map": pm, "cd": conn_data(0.6)})
+        # all caller classes of a program are built from ONE mix-in holding the wrapper methods (so the metadata
+        # object `@method_http` makes is shared by all of them), each with its own _HTTP_PREFIX_MAP.  "of":
+        #   None            a new class derived from the mix-in
+        #   ["sib", k]      the same, its map re-using the component names of caller k with other prefixes
+        #   ["sub", k]      a SUBCLASS of caller k's class with its own _HTTP_PREFIX_MAP (replaces the inherited one)
+        #   ["subinh", k]   a subclass of caller k's class without a map of its own (inherits k's)
+        #   ["same", k]     another instance of caller k's class (another connection)
+        # "map" is always the map in force for the new caller (what the model and the oracle read)
+        of = None
+        r = rng.random()
+        if callers and r < 0.5:
+            k = rng.randrange(len(callers))
+            r2 = rng.random()
+            if r2 < 0.2:
+                of, pm = ["same", k], copy.deepcopy(callers[k])
+            elif r2 < 0.35:
+                of, pm = ["subinh", k], copy.deepcopy(callers[k])
+            else:
+                of = [("sub" if r2 < 0.7 else "sib"), k]
+                pm = [[c, rng.choice(PREFIXES)] for c, _ in callers[k]]
+                if pm and rng.random() < 0.2:
+                    pm.pop(rng.randrange(len(pm)))
+                extra = [c for c in COMPS if c not in [x[0] for x in pm]]
+                if extra and rng.random() < 0.3:
+                    pm.append([rng.choice(extra), rng.choice(PREFIXES)])
+        else:
+            ks = rng.sample(COMPS, rng.choice([0, 1, 2, 2, 3]))
+            pm = [[k, rng.choice(PREFIXES)] for k in ks]
+            if len(pm) >= 2 and rng.random() < 0.3:
+                pm[1][1] = pm[0][1]          # two components behind the same prefix
+        op = {"o": "caller", "map": pm, "cd": conn_data(0.6)}
+        if of is not None:
+            op["of"] = of
+        ops.append(op)
         conns.append(1)
         callers.append(pm)
 
@@ -642,7 +766,20 @@ def gen_program(rng, with_add=False, size=None):
         return {"m": m, "path": rng.choice(PATHS), "params": pick("params", 0.5), "data": pick("body", 0.5),
                 "headers": pick("hdrs", 0.5), "raw": raw, "xnone": rng.random() < 0.25, "resp": resp}
 
+    decls = []      # component declarations of the wrapper methods used so far (one method per declaration)
+
     def comps_for(m):
+        c = comps_for0(m)
+        if decls and rng.random() < 0.5:
+            # the SAME wrapper method as an earlier call, preferably one this caller has a component for
+            pm = [x[0] for x in callers[m]]
+            fit = [d for d in decls if d is not None and sum(1 for x in ([d["s"]] if "s" in d else d["l"]) if x in pm) == 1]
+            c = copy.deepcopy(rng.choice(fit if fit and rng.random() < 0.8 else decls))
+        if c not in decls:
+            decls.append(copy.deepcopy(c))
+        return c
+
+    def comps_for0(m):
         pm = callers[m]
         r = rng.random()
         if r < 0.25:
@@ -692,9 +829,16 @@ def gen_program(rng, with_add=False, size=None):
     q = reqspec()
     for c in range(len(conns)):
         ops.append({"o": "req", "c": c, "q": q if rng.random() < 0.7 else reqspec()})
-    for m in range(len(callers)):
+    order = list(range(len(callers)))
+    if rng.random() < 0.5:
+        order.reverse()         # the callers (and their classes) in the other order
+    for m in order:
         ops.append({"o": "call", "m": m, "comps": comps_for(m), "q": q})
-    return {"ops": ops}
+    case = {"ops": ops}
+    env = gen_env(rng)
+    if env:
+        case["env"] = env
+    return case
 
 
 def gen_cases(rng, tier):
@@ -714,7 +858,12 @@ def _has_add(case):
 
 
 def kind(case):
-    return "program+add_adapter" if _has_add(case) else "program"
+    k = "program+add_adapter" if _has_add(case) else "program"
+    if any(o.get("of") for o in case["ops"]):
+        k += "+shared-classes"
+    if case.get("env"):
+        k += "+ambient"
+    return k
 
 
 # ------------------------------------------------------------------ implementation
@@ -733,7 +882,85 @@ def _q_resp(q):
     return q.get("resp") or DEFAULT_RESP
 
 
+LOGGER_NAMES = {"conn": "ak.conn_http", "mcaller": "ak.mcaller", "ak": "ak", "root": None}
+
+
+class _Ambient:
+    """the process-wide settings a program runs under (case["env"]), put back afterwards"""
+    def __init__(self, env):
+        self.env = env or {}
+        self.undo = []
+
+    def __enter__(self):
+        import io
+        import logging
+        import socket
+        import time
+        import warnings
+        env = self.env
+        try:
+            for ent in env.get("log", []):
+                if ent[0] == "disable":
+                    prev = logging.root.manager.disable
+                    self.undo.append(lambda prev=prev: logging.disable(prev))
+                    logging.disable(ent[1])
+                    continue
+                lg = logging.getLogger(LOGGER_NAMES[ent[0]])
+                prev = (lg.level, lg.propagate, lg.disabled, list(lg.handlers))
+
+                def back(lg=lg, prev=prev):
+                    lg.handlers[:] = prev[3]
+                    lg.propagate, lg.disabled = prev[1], prev[2]
+                    lg.setLevel(prev[0])
+                self.undo.append(back)
+                lg.setLevel(ent[1])
+                if ent[2] == "null":
+                    lg.addHandler(logging.NullHandler())
+                elif ent[2] == "fmt":       # a handler that really formats every record (into a buffer)
+                    h = logging.StreamHandler(io.StringIO())
+                    h.setFormatter(logging.Formatter("%(asctime)s %(name)s %(levelname)s %(funcName)s %(message)s"))
+                    lg.addHandler(h)
+            if env.get("environ"):
+                names = [k for k, _ in env["environ"]]
+                prev = dict((k, os.environ.get(k)) for k in names)
+
+                def back_env(prev=prev):
+                    for k, v in prev.items():
+                        if v is None:
+                            os.environ.pop(k, None)
+                        else:
+                            os.environ[k] = v
+                    time.tzset()
+                self.undo.append(back_env)
+                for k, v in env["environ"]:
+                    os.environ[k] = v
+                time.tzset()
+            if env.get("warnings"):
+                cm = warnings.catch_warnings()
+                cm.__enter__()
+                self.undo.append(lambda cm=cm: cm.__exit__(None, None, None))
+                warnings.simplefilter(env["warnings"])
+            if env.get("socket_timeout") is not None:
+                prev = socket.getdefaulttimeout()
+                self.undo.append(lambda prev=prev: socket.setdefaulttimeout(prev))
+                socket.setdefaulttimeout(env["socket_timeout"])
+        except BaseException:
+            self.__exit__(None, None, None)
+            raise
+        return self
+
+    def __exit__(self, *a):
+        while self.undo:
+            self.undo.pop()()
+        return False
+
+
 def impl_run(case):
+    with _Ambient(case.get("env")):
+        return _impl_run(case)
+
+
+def _impl_run(case):
     import email.message
     import io
     import urllib.error
@@ -877,15 +1104,43 @@ def impl_run(case):
                 pos[0], pos[1], method=pos[2], params=pos[3], data=pos[4], headers=pos[5])
         return conn.conn_impl.do_request(*pos, raw) if not q.get("xnone") else conn.conn_impl.do_request(*pos, raw_response=raw)
 
-    def mk_class(pmap):
-        ns = {"_HTTP_PREFIX_MAP": dict((k, v) for k, v in pmap)}
+    def mk_mixin(name, which):
+        """a mix-in with the wrapper methods `which`: each decorated ONCE, so that every caller class of the program
+        shares the method objects and the metadata `@method_http` attached to them"""
+        ns = {}
         for i, key in enumerate(comp_specs):
+            if i not in which:
+                continue
             comps = json.loads(key)
             decl = None if comps is None else comps["s"] if "s" in comps else list(comps["l"])
             env = {"send": send}
             exec(f"def w{i}(self, q, objs):\n    conn = self.get_conn()\n    return send(conn, q, objs)\n", env)
             ns[f"w{i}"] = method_http(None, decl)(env[f"w{i}"])
-        return type(MCallerHttp)("Caller", (MCallerHttp,), ns)
+        return type(MCallerHttp)(name, (MCallerHttp,), ns)
+
+    mixins = []
+
+    def mk_class(o):
+        """the class of a new caller: built from the program's mix-in(s) with its own _HTTP_PREFIX_MAP, a subclass of
+        an earlier caller's class (own map / inherited map), or that very class"""
+        if not mixins:
+            n = len(comp_specs)
+            if n >= 2 and case.get("mixins", 2) == 2:     # two mix-ins: the methods' metadata is merged per class
+                mixins.extend([mk_mixin("ApiEven", range(0, n, 2)), mk_mixin("ApiOdd", range(1, n, 2))])
+            else:
+                mixins.append(mk_mixin("Api", range(n)))
+        of = o.get("of")
+        pmap = dict((k, v) for k, v in o["map"])
+        if of is None or of[0] == "sib":
+            return type(MCallerHttp)("Caller", tuple(mixins), {"_HTTP_PREFIX_MAP": pmap})
+        base = type(at(callers, of[1]))
+        if of[0] == "same":
+            return base
+        if of[0] == "sub":
+            return type(MCallerHttp)("SubCaller", (base,), {"_HTTP_PREFIX_MAP": pmap})
+        if of[0] == "subinh":
+            return type(MCallerHttp)("SubCallerInh", (base,), {})
+        raise ValueError(of)
 
     objs = []
     kinds = []
@@ -968,7 +1223,7 @@ def impl_run(case):
                     conns.append(c)
                     res = ["ok"]
                 elif t == "caller":
-                    m = mk_class(o["map"])(conn_data(o["cd"]))
+                    m = mk_class(o)(conn_data(o["cd"]))
                     callers.append(m)
                     conns.append(m.http_conn)
                     res = ["ok"]
@@ -1500,10 +1755,17 @@ def shrink_candidates(case):
     # drop request-like operations (they create nothing that later operations name), last first
     for i in range(len(ops) - 1, -1, -1):
         if ops[i]["o"] in ("req", "call", "add"):
-            yield {"ops": ops[:i] + ops[i + 1:]}
+            yield {**case, "ops": ops[:i] + ops[i + 1:]}
     # drop a trailing operation of any kind
     if len(ops) > 1:
-        yield {"ops": ops[:-1]}
+        yield {**case, "ops": ops[:-1]}
+    # drop the ambient configuration, or one part of it
+    extra = dict((k, v) for k, v in case.items() if k != "ops")
+    if case.get("env"):
+        yield {"ops": ops, **dict((k, v) for k, v in extra.items() if k != "env")}
+        for part in case["env"]:
+            if len(case["env"]) > 1:
+                yield {"ops": ops, **extra, "env": dict((k, v) for k, v in case["env"].items() if k != part)}
     # drop arguments of requests
     for i, o in enumerate(ops):
         if o["o"] in ("req", "call"):
@@ -1511,7 +1773,7 @@ def shrink_candidates(case):
                 if o["q"][f] is not None:
                     o2 = copy.deepcopy(o)
                     o2["q"][f] = None
-                    yield {"ops": ops[:i] + [o2] + ops[i + 1:]}
+                    yield {**case, "ops": ops[:i] + [o2] + ops[i + 1:]}
 
 
 TECHNIQUE = ("Coq proof on a hand-written executable Gallina HEAP model (mutable python objects = cells addressed by references, "
@@ -1527,7 +1789,7 @@ TECHNIQUE = ("Coq proof on a hand-written executable Gallina HEAP model (mutable
              "returned value by induction over the adapter list.  Tied to the code per run by the correspondence check (vm_compute of the model vs the implementation on "
              "random programs, incl. programs with add_adapter) and by clauses / literal keys regenerated from the source (ast, "
              "fail closed) on which source_clauses states the obligations.")
-LEVEL_TEXT = ("Model-level theorems (coq/C17/Props.v, 38 theorems + 9 examples, all closed), quantified over ALL chains, ALL request "
+LEVEL_TEXT = ("Model-level theorems (coq/C17/Props.v, 38 theorems + 10 examples, all closed), quantified over ALL chains, ALL request "
               "arguments and ALL operation sequences (programs over wrap / Caller / clone(None|adapter|list) / component lookup with "
               "the per-prefix cache / request / new caller objects) -- FULL: chain_applied_once + wrapper_call_chain (a request "
               "= spec_of the adapters of the whole chain, own first then the parent's ..., each once in that order; component "
@@ -1558,7 +1820,10 @@ LEVEL_TEXT = ("Model-level theorems (coq/C17/Props.v, 38 theorems + 9 examples, 
               "(python raises there; not generated).  ONLY TESTED (correspondence + oracle, 700 programs quick / 12000 thorough): "
               "that the model is the code -- urllib's Request header storage (capitalize, later wins), str.upper / "
               "capitalize for non-ASCII, the conn_data forms (address / list / tuple / dict), HttpConn-or-not test of "
-              "MCallerHttp.__init__, exception classes; NOT claimed: tuples as `adapters` (TypeError in the code, outside the "
+              "MCallerHttp.__init__, exception classes; that the prefix of a component method is resolved per caller CLASS (shared mix-in methods, sibling classes, "
+              "subclasses, several instances; example prefix_per_caller_example, in general wrapper_call_chain + noninterference on the "
+              "model, whose callers carry their own map) and that nothing depends on the logging configuration / environment of the "
+              "process (the model has no such input); NOT claimed: tuples as `adapters` (TypeError in the code, outside the "
               "statement), descriptions, auth_type, logging, threads (C16); what error statuses / undecodable bodies do is model = code (HTTPError / ValueError), not a clause of the statement.")
 LEVEL_NOTE = ("Trusted: Coq kernel + vm_compute; the hand model's fidelity to ak/conn_http.py and ak/mcaller_http.py (checked by "
               "correspondence on every run and by the regenerated clauses, not proved); urllib.request.Request / urlencode / "
